@@ -27,6 +27,32 @@ def may_access_buffers(op: Operation, ctx: AccContext) -> bool:
     return not is_side_effect_free(op)
 
 
+def get_dispatched_op(op: Operation, ctx: AccContext) -> Operation:
+    """
+    The operation that is dispatched as a whole: an operation nested in an operation that runs on one core
+    (the body of a kernel) is part of that operation.
+    """
+    result = op
+    parent = op.parent_op()
+    while parent is not None:
+        if dispatch_to_dm(parent, ctx) or dispatch_to_compute(parent, ctx):
+            result = parent
+        parent = parent.parent_op()
+    return result
+
+
+def get_accessed_values(op: Operation, ctx: AccContext) -> list[SSAValue]:
+    """Operands and results of the operation; for a kernel also what its body uses from outside."""
+    values: list[SSAValue] = [*op.operands, *op.results]
+    if dispatch_to_dm(op, ctx) or dispatch_to_compute(op, ctx):
+        for inner in op.walk():
+            for operand in inner.operands:
+                owner = operand.owner if isinstance(operand.owner, Operation) else operand.owner.parent_op()
+                if inner is not op and (owner is None or not op.is_ancestor(owner)) and operand not in values:
+                    values.append(operand)
+    return values
+
+
 def get_view_source(value: SSAValue) -> SSAValue:
     """Follow views (subviews, casts) back to the value they are a view of."""
     while isinstance(value, OpResult) and is_view_op(value.op):
@@ -149,26 +175,32 @@ class InsertSyncBarrier(ModulePass):
                 # synchronisation ok, remove the synchronised ops from the list
                 ops_to_sync = remove_synced_ops(ops_to_sync, op_in_module)
 
+            # the body of a kernel is part of the kernel
+            if get_dispatched_op(op_in_module, ctx) is not op_in_module:
+                continue
+
             # check all operands of current op
-            for operand in [*op_in_module.operands, *op_in_module.results]:
+            for operand in get_accessed_values(op_in_module, ctx):
                 # check all ops that use the operand -> dependency with current op
                 # ops that use another view of the same memory depend on the current op as well
-                for op_use in (use for source in get_view_sources(operand) for use in get_uses_through_views(source)):
+                for use in (use for source in get_view_sources(operand) for use in get_uses_through_views(source)):
+                    # a use inside the body of a kernel is a use by the kernel
+                    user = get_dispatched_op(use.operation, ctx)
                     # now check if op is dispatched to a specific core and the result
                     # is used on another core - if yes, there must be a synchronisation
                     # barrier between the two ops
 
-                    if dispatch_to_dm(op_in_module, ctx) and not dispatch_to_dm(op_use.operation, ctx):
-                        ops_to_sync.append(op_use.operation)
+                    if dispatch_to_dm(op_in_module, ctx) and not dispatch_to_dm(user, ctx):
+                        ops_to_sync.append(user)
                         # the two ops meet again in the next iteration of every loop they share
-                        if (for_op := get_common_for_op(op_in_module, op_use.operation)) is not None:
+                        if (for_op := get_common_for_op(op_in_module, user)) is not None:
                             assert isinstance(for_op.body.block.last_op, scf.YieldOp)
                             ops_to_sync.append(for_op.body.block.last_op)
 
-                    if dispatch_to_compute(op_in_module, ctx) and not dispatch_to_compute(op_use.operation, ctx):
-                        ops_to_sync.append(op_use.operation)
+                    if dispatch_to_compute(op_in_module, ctx) and not dispatch_to_compute(user, ctx):
+                        ops_to_sync.append(user)
                         # the two ops meet again in the next iteration of every loop they share
-                        if (for_op := get_common_for_op(op_in_module, op_use.operation)) is not None:
+                        if (for_op := get_common_for_op(op_in_module, user)) is not None:
                             assert isinstance(for_op.body.block.last_op, scf.YieldOp)
                             ops_to_sync.append(for_op.body.block.last_op)
 
@@ -178,13 +210,13 @@ class InsertSyncBarrier(ModulePass):
                         may_access_buffers(op_in_module, ctx)
                         and isinstance(operand.type, builtin.MemRefType)
                         and operand in op_in_module.operands
-                        and (dispatch_to_dm(op_use.operation, ctx) or dispatch_to_compute(op_use.operation, ctx))
+                        and (dispatch_to_dm(user, ctx) or dispatch_to_compute(user, ctx))
                     ):
-                        ops_to_sync.append(op_use.operation)
-                        if (for_op := get_common_for_op(op_in_module, op_use.operation)) is not None:
+                        ops_to_sync.append(user)
+                        if (for_op := get_common_for_op(op_in_module, user)) is not None:
                             assert isinstance(for_op.body.block.last_op, scf.YieldOp)
                             ops_to_sync.append(for_op.body.block.last_op)
 
-                    if isinstance(op_use.operation, DeallocOp):
+                    if isinstance(user, DeallocOp):
                         # if the operation is a sync op, clear the list
-                        ops_to_sync.append(op_use.operation)
+                        ops_to_sync.append(user)
